@@ -72,7 +72,7 @@ def build_objs(objs, rendering, ego):
             ob.semantic_label.name = nm
             ob.pointcloud_num = o["pts"]
         else:
-            ob = obj3d((o["x"], o["y"], 0.5), yaw=0.3 * i, label=o["label"], score=o["conf"] / 100.0, uuid=uu, vid=i + 1, points=o["pts"],
+            ob = obj3d((o["x"], o["y"], 3.0), yaw=0.3 * i, label=o["label"], score=o["conf"] / 100.0, uuid=uu, vid=i + 1, points=o["pts"],
                        attributes=attrs, frame="map" if rendering.startswith("map") else "base_link", ego=ego)
             ob.semantic_label.name = nm
             if rendering.endswith(":derived"):
